@@ -19,6 +19,7 @@ def main():
     for i in args:
         d = f'{ROOT}/seeded/{i}'
         meta = json.load(open(f'{d}/meta.json'))
+        if meta.get('retired'): print(i, 'retired:', meta['retired'][:80]); results.pop(i, None); continue
         props = extra[0] if extra else [meta['property']] + meta.get('also_check', [])
         sh(f'git -C {WT} checkout -q -- . && git -C {WT} clean -fdq')
         r = sh(f'git -C {WT} apply {d}/patch.diff')
